@@ -23,7 +23,7 @@ TypeSeq == <<"f64", "f32", "i32", "i64">>
 TI(t) == CHOOSE i \in 1..3 : TagSeq[i] = t
 
 \* sampling hash: a square modulo a prime on top of a linear form (a linear form alone makes  % Quota  periodic in M,K,N)
-Lin(s, lt, rt) == s[1] * 7919 + s[2] * 104729 + s[3] * 1299709 + TI(lt) * 611953 + TI(rt) * 15485863 + Seed * 32452843
+Lin(s, lt, rt) == s[1] * 7919 + s[2] * 104729 + s[3] * 1299709 + TI(lt) * 611953 + TI(rt) * 15485863 + (Seed % 10007) * 104723
 H(s, lt, rt, salt) == LET a == ((Lin(s, lt, rt) % 1000003) + (salt * 7907)) % 46337 IN (((a * a) % 1000003) + a) % 10007
 
 \* ---- case constructor: type, kind and API form rotate with the hash, so that over the box every type / form
